@@ -177,7 +177,9 @@ class _Beam(_IModel):
         # make sure that the section is centered in (0,0)
         section.Translate(*-section.center)
         Iyz = section.groupElem.Integrate_e(lambda x, y, z: x * y).sum()
-        assert np.abs(Iyz) <= 1e-9, "The section must have at least 1 symetry axis."
+        # relative to the polar moment of the section (lengths may be in any unit)
+        Ip = section.groupElem.Integrate_e(lambda x, y, z: x**2 + y**2).sum()
+        assert np.abs(Iyz) <= 1e-8 * Ip, "The section must have at least 1 symetry axis."
         self.Need_Update()
         self.__section: "Mesh" = section
         if "_ky" in self.__dict__:
